@@ -236,7 +236,9 @@ def cmd_check(prop, tier):
 
             still = tag in split_tags(rep.get("verdict", ""))
             if still or tag in findings:
-                lines.append(f"KNOWN-FINDING: property={prop} {k['description']} [harness={hn} tag={tag}]")
+                ln = f"KNOWN-FINDING: property={prop} {k['description']}"
+                if not any(x.startswith(ln) for x in lines):
+                    lines.append(ln + f" [first seen as harness={hn} tag={tag}]")
                 known_seen.append({"harness": hn, "tag": tag, "witness_reproduces": still, "paths_with_tag": findings.get(tag, {}).get("count", 0)})
             else:
                 lines.append(f"NOTE: known finding {hn}/{tag} no longer reproduces (fixed?)")
